@@ -158,9 +158,13 @@ PROPS["C03"] = dict(
     assumptions=["per-page order of results is canonicalised (Go map iteration)"],
     level_text="Proof (PARTIAL): for one write the reference index keeps 'newest key <= at is live' equal to 'last version <= at is live and carries the reference' for every reference "
                "and instant, including the in-batch tombstone removal (index_step, proved on the per-(dataset, referencing entity) index model whose algorithm Hub.Store.writeRefs repeats); "
-               "outgoing and incoming scans with continuations are executable models compared with the real store and with the graph specification on generated histories. "
-               "Incoming is NOT the transpose of outgoing when a referencing entity has several (predicate, dataset) combinations towards the start entity: incoming_not_transpose, known finding D4.",
-    level_note="Trusted: Lean kernel, factgen, badger. The equality 'outgoing scan = graph' for whole histories is validated by the correspondence (model = real = spec), the theorem covers the index step.",
+               "the unpaged outgoing scan — reverse iteration with its seen/added sets — returns a pair exactly once, iff for some in-scope non-deleted dataset the newest key of "
+               "(source, predicate, target, dataset) recorded <= at is live, for every database, predicate filter, instant and scope (outgoing_unpaged); together: under the index invariant the "
+               "outgoing query equals the graph implied by the latest versions (outgoing_eq_graph). Paged outgoing scans and incoming scans with continuations are executable models compared "
+               "with the real store and with the graph specification on generated histories. Incoming is NOT the transpose of outgoing when a referencing entity has several (predicate, dataset) "
+               "combinations towards the start entity: incoming_not_transpose, known finding D4.",
+    level_note="Trusted: Lean kernel, factgen, badger. That the whole-store write path keeps the per-(dataset, entity) index invariant (the hypothesis of outgoing_eq_graph) is index_step "
+               "per write plus the correspondence for the embedding into the store model; paging is validated by the correspondence.",
 )
 
 PROPS["C06"] = dict(
